@@ -12,6 +12,7 @@ from .c01 import shape_key
 
 class C04(Property):
     id = "C04"
+    anchors = ('finam.schedule:Composition._update_recursive', 'finam.schedule:Composition._connect_components', 'finam.adapters.time:DelayFixed.with_delay')
     technique = "outcome-class oracle from the spec (cycle enumeration + effective delay budget) vs observed exception class of the real run, with the C01/C02 monitors attached; logical step cap instead of wall-clock for 'no hang'"
     rule = (
         "rings of 2-5 time components, with chord and tail, pull-based components on ring links, delay budget per cycle drawn from "
